@@ -6,6 +6,7 @@
 EXTENDS Tables, Json
 
 MC_Vals == {1, 2}
+MC_Vals1 == {1}
 
 St      == [id |-> id,  val |-> val,  vt |-> vt]
 StPrime == [id |-> id', val |-> val', vt |-> vt']
